@@ -174,6 +174,7 @@ type loopInfo struct {
 	frameWhole   map[string]bool
 	framePre     *State
 	seen         string // component holding the seen-set of the map range driven by this loop
+	backReach    []Term // reach conditions of the back edges (vacuity cover)
 }
 
 func (vc *VC) freshName(prefix string) string {
